@@ -1211,17 +1211,20 @@ impl Resolver {
                                     Name::Name(r) => self.variables[*r].definition,
                                     Name::Namespace(_, span) => *span,
                                 };
+                                // The imports of the preamble are part of every file, but they aren't
+                                // written in it - point at what is.
+                                let (at, other, other_is) = if &self.span_file(&var.span) != file_or_lib {
+                                    (span, var.span, "Every file imports this name here")
+                                } else {
+                                    (var.span, span, "First definition is here")
+                                };
                                 let err = resolution_error!(
                                     self,
-                                    var.span,
+                                    at,
                                     "A Name collision - duplicate definitions of {:?}",
                                     var.name
                                 );
-                                errs.push(self.add_help(
-                                    err,
-                                    span,
-                                    "First definition is here".into(),
-                                ));
+                                errs.push(self.add_help(err, other, other_is.into()));
                             }
                             Entry::Occupied(_) => { /* We allow importing the same thing multiple times */
                             }
